@@ -2,7 +2,7 @@
 import gen_common
 import sched_common
 
-DEP_FILES = ["SchedModel.v", "SchedLemmas.v", "SchedInv.v", "SchedInv2.v", "SchedProps.v", "SchedInv3.v", "SchedInv4.v", "SchedTheorems.v", "FlowOpModel.v", "FlowOpProofs.v"]
+DEP_FILES = ["SchedModel.v", "SchedLemmas.v", "SchedInv.v", "SchedInv2.v", "SchedProps.v", "SchedInv3.v", "SchedInv4.v", "SchedTheorems.v", "FlowOpModel.v", "FlowOpProofs.v", "FlowSaturated.v"]
 PID = "C07"
 
 
